@@ -39,7 +39,8 @@ let () =
          | 'X' | 'I' | 'K' -> pr (Printf.sprintf "%s %c" pre l)
          | 'L' -> if pre = "a" then pr (Printf.sprintf "a L %s" (string_of_z c)) else pr "skip L"
          | _ -> pr (Printf.sprintf "%s %c %s" pre l (string_of_z c)))
-      | EIt c -> pr (Printf.sprintf "it %d" (int_of_nat c))) (List.rev (log wld)) in
+      | EIt c -> pr (Printf.sprintf "it %d" (int_of_nat c))
+      | ENew _ -> ()) (List.rev (log wld)) in
   let print_state wld =
     let b = Buffer.create 64 in
     Buffer.add_string b (if s_alloc wld then "st svc=" ^ string_of_z (s_rc wld) else "st svc=freed");
